@@ -18,7 +18,35 @@ Inductive ann := ANone | AInt | AFloat | AStr | ABool | AList | AOpt | AEnum | A
 Definition is_bool_ann (a : ann) : bool := match a with ABool => true | _ => false end.
 Definition is_none_ann (a : ann) : bool := match a with ANone => true | _ => false end.
 
+(* ---------- infer_type_annotation_from_default: the type of an un-annotated parameter, from its default ---------- *)
+Inductive bty := TInt | TStr | TFloat | TBool.
+(* what a default value is: a bool / int / float / str, a tuple of such, or anything else *)
+Inductive dkind := DBool | DInt | DFloat | DStr | DTuple (l : list dkind) | DOther.
+Inductive ity := IB (t : bty) | ITuple (l : list ity) | IFail.        (* IFail: NotImplementedError / not one of these *)
+(* isinstance(default, t): a bool is also an int *)
+Definition isinstance_b (d : dkind) (t : bty) : bool :=
+  match d, t with
+  | DBool, TBool | DBool, TInt | DInt, TInt | DFloat, TFloat | DStr, TStr => true
+  | _, _ => false
+  end.
+Definition type_of (d : dkind) : option bty :=
+  match d with DBool => Some TBool | DInt => Some TInt | DFloat => Some TFloat | DStr => Some TStr | _ => None end.
+Inductive infer_rule :=
+| InferTypeOf (tests : list bty)     (* if isinstance(default, (t1, .., tn)): return type(default) *)
+| InferFirst (order : list bty).     (* for t in (t1, .., tn): if isinstance(default, t): return t *)
+Definition infer_scalar (r : infer_rule) (d : dkind) : option bty :=
+  match r with
+  | InferTypeOf ts => if existsb (isinstance_b d) ts then type_of d else None
+  | InferFirst ts => find (isinstance_b d) ts
+  end.
+Fixpoint infer (r : infer_rule) (d : dkind) : ity :=
+  match infer_scalar r d with
+  | Some t => IB t
+  | None => match d with DTuple l => ITuple (map (infer r) l) | _ => IFail end
+  end.
+
 Record facts := mkfacts {
+  f_infer : infer_rule;             (* head of infer_type_annotation_from_default *)
   f_main_kwargs : list string;      (* keyword names main passes to helpers.field *)
   f_field_named : list string;      (* named parameters of helpers.field; every other keyword lands in custom_args *)
   f_bool_params : list string;      (* parameters of BooleanOptionalAction.__init__ (it has no **kwargs) *)
